@@ -226,6 +226,8 @@ pub fn disconnects(m: &Model, c: Cid, with_drop_task: bool) -> Vec<Action> {
 pub struct RegistryScenario {
     pub minors: Vec<u32>,
     pub depth: usize,
+    /// also end connections by dropping their task, alone and with a request still queued
+    pub crash_points: bool,
 }
 
 impl Scenario for RegistryScenario {
@@ -233,7 +235,7 @@ impl Scenario for RegistryScenario {
         "registry".into()
     }
     fn params(&self) -> serde_json::Value {
-        json!({"versions": self.minors, "depth": self.depth, "object_uuids": 2, "service_uuids": 2})
+        json!({"versions": self.minors, "depth": self.depth, "object_uuids": 2, "service_uuids": 2, "crash_points": self.crash_points})
     }
     fn prelude(&self) -> Vec<Action> {
         self.minors.iter().map(|m| connect(*m)).collect()
@@ -247,13 +249,21 @@ impl Scenario for RegistryScenario {
             let minor = m.minor(c);
             for n in 1..=2u8 {
                 out.push((send(c, create_object(1, obj_uuid(n))), true));
+                if self.crash_points && n == 1 {
+                    // the request is queued, then the sender's task dies before the broker sees it
+                    out.push((Action::SendThenDropTask { c, m: create_object(1, obj_uuid(n)) }, true));
+                }
             }
             for oc in obj_cookies(m, stale) {
                 out.push((send(c, destroy_object(2, oc)), true));
                 for s in 1..=2u8 {
-                    if minor >= 17 {
-                        out.push((send(c, create_service2(3, oc, svc_uuid(s), 7, Some(true))), true));
-                    } else {
+                    let mm = if minor >= 17 { create_service2(3, oc, svc_uuid(s), 7, Some(true)) } else { create_service(3, oc, svc_uuid(s), 7) };
+                    if self.crash_points && s == 1 && m.obj_by_cookie.contains_key(&oc) {
+                        out.push((Action::SendThenDropTask { c, m: mm.clone() }, true));
+                    }
+                    out.push((send(c, mm), true));
+                    // the legacy request is also legal for newer connections
+                    if minor >= 17 && s == 2 {
                         out.push((send(c, create_service(3, oc, svc_uuid(s), 7)), true));
                     }
                 }
@@ -271,8 +281,13 @@ impl Scenario for RegistryScenario {
                 }
                 out.push((send(c, call_function(9, sc, 1, sym::none_value())), false));
             }
-            for a in disconnects(m, c, false) {
+            for a in disconnects(m, c, self.crash_points) {
                 out.push((a, true));
+            }
+        }
+        for c in 0..m.conns.len() {
+            if m.conns[c].state == CState::Zombie {
+                out.push((Action::Kick(c), true));
             }
         }
         out
